@@ -8,11 +8,11 @@ from x2p import impl as I
 HEADER = ('Require Import X2P.Base.Prelude X2P.Model.Reader X2P.Corr.C18.\n')
 TARGETS = ['theories/Props/C18.vo', 'theories/Corr/C18.vo']
 DIR = os.path.join(C.BUILD, 'c18')
-TITLES = ['Main', 'Second sheet', 'S3', "T4", 'Ünï', 'Last']
+TITLES = ['Main', 'Second sheet', '\U00020bb7 S3 \U0001F4CA', "T4", 'Ünï', 'Last']       # the third one has characters beyond U+FFFF
 
 
 def gen_value(rng):
-    return rng.choice([1, 0, -7, 123456789, 2.5, -0.125, 1e-7, 0.1 + 0.7, 0.1 + 0.2 + 0.3, 1.4 * 3, 0.57 * 100, 1 / 3, True, False, 'text', '  indented', ' ', 'ends ', 'it\'s "q"', 'a\\b', 'line1\nline2',
+    return rng.choice([1, 0, -7, 123456789, 1e16, -2.5e17, 1e20, 6.02214076e23, 2.5, -0.125, 1e-7, 0.1 + 0.7, 0.1 + 0.2 + 0.3, 1.4 * 3, 0.57 * 100, 1 / 3, True, False, 'text', '  indented', ' ', 'ends ', 'it\'s "q"', 'a\\b', 'line1\nline2',
                        '=A1+1', '', dt.datetime(2020, 2, 29), dt.datetime(1999, 12, 31, 23, 59, 58), 'eval', '{x}', '%s', '#'])
 
 
@@ -87,8 +87,20 @@ def make_case(rc, k=[0]):
     if fail is None and not big:
         try:
             src = I.Parser().set_excel_file_path(path).disable_safety_check().get_translation()
-            e = I.executor(I.load(src))
+            cls = I.load(src)
+            e = I.executor(cls)
+            if list(cls().get_titles().items()) != [(TITLES[i], i) for i in range(len(planted))]:
+                fail = 'the translated class reports the titles %r' % (cls().get_titles(),)
             for i, m in enumerate(planted):
+                if fail:
+                    break
+                if m:
+                    (c0, r0), v0 = next(iter(m.items()))
+                    if not (isinstance(v0, str) and v0.startswith('=')):
+                        got = I.outcome(lambda: e.get_cell(I.Cell(TITLES[i], get_column_letter(c0), str(r0))).value)
+                        if got[0] != 'ok' or type(got[1]) is not type(v0) or got[1] != v0:
+                            fail = 'cell %s%d addressed by the sheet title %r evaluates to %r, stored %r' % (get_column_letter(c0), r0, TITLES[i], got, v0)
+                            break
                 for (c, r), v in list(m.items())[:12]:
                     if isinstance(v, str) and v.startswith('='):
                         continue
